@@ -89,12 +89,12 @@ type JSThread struct {
 
 // JSField is a javascript / javascript_with_context field of a generated schema.
 type JSField struct {
-	Name   string   `json:"name"`
-	Ctx    bool     `json:"ctx,omitempty"`
-	XPath  string   `json:"xpath,omitempty"` // "", ".", "..", "../..", "c0" (the record's first column; Wrap only)
+	Name  string `json:"name"`
+	Ctx   bool   `json:"ctx,omitempty"`
+	XPath string `json:"xpath,omitempty"` // "", ".", "..", "../..", "c0" (the record's first column; Wrap only)
 	// Wrap: the call sits, without an xpath of its own, inside an object that carries the anchor xpath:
 	// {"xpath": XPath, "object": {"v": <call>}} - the same call text can then be evaluated on several nodes of one record.
-	Wrap bool `json:"wrap,omitempty"`
+	Wrap   bool     `json:"wrap,omitempty"`
 	Script string   `json:"script"`
 	Probes []string `json:"probes,omitempty"`
 	Args   []JSArg  `json:"args,omitempty"`
